@@ -17,9 +17,8 @@ import (
 	"encoding/json"
 	"fmt"
 	"os"
+	"path/filepath"
 	"sort"
-	"sync"
-	"time"
 
 	"verif/harness/vh"
 )
@@ -114,6 +113,17 @@ func genSpec(r *vh.Rng, idx int, thorough bool) scenarioSpec {
 		}
 		sp.Post = 3 + r.Intn(40)
 		sp.Big = 0
+	} else if sp.Mode == "queue" && len(sp.Script) == 0 {
+		sp.Stall = r.Chance(60)
+		if sp.Stall {
+			sp.Post = 3 + r.Intn(30)
+		}
+	}
+	if len(sp.Script) == 0 && !sp.Stall && len(sp.Reconfig) == 0 && r.Chance(25) {
+		sp.TimeoutMs = 400 + r.Intn(300)
+		sp.IdleMs = sp.TimeoutMs*2 + r.Intn(400)
+		sp.Post = 2 + r.Intn(2)
+		sp.Big = 0
 	}
 	if sp.Mode == "direct" && len(sp.Script) > 0 && r.Chance(6) {
 		// all frames larger than the buffered writer: a cut inside a frame hits send(), not Flush()
@@ -141,6 +151,12 @@ func genSpec(r *vh.Rng, idx int, thorough bool) scenarioSpec {
 	if sp.BigAll > 0 {
 		sp.Name += fmt.Sprintf("/%d MiB frames", sp.BigAll>>20)
 	}
+	if sp.Stall {
+		sp.Name += "/stalled consumer"
+	}
+	if sp.IdleMs > 0 {
+		sp.Name += fmt.Sprintf("/idle %d ms > timeout %d ms", sp.IdleMs, sp.TimeoutMs)
+	}
 	return sp
 }
 
@@ -160,12 +176,26 @@ func fixedSpecs(seed uint64) []scenarioSpec {
 		mk("direct", 1, []directive{{Close: true, Frames: 1, Extra: -1}, {Close: true, RefuseBefore: 3, Frames: 0, Extra: 5}}, 5),
 		mk("queue", 4, []directive{{Close: true, Frames: 2, Extra: 1}}, 6),
 		mk("queue", 1, []directive{{Close: true, Frames: 1, Extra: 0}, {RefuseBefore: 1}}, 6),
+		// every entry point against a stalled consumer: delivery order = acceptance order
+		stall(1, 30), stall(4, 15), stall(16, 8),
+		// a healthy connection that idles longer than the client's Timeout between sends
+		idle("direct", 1), idle("direct", 4), idle("queue", 1), idle("queue", 4),
 		// reconfiguration under a backlog (healthy connection): lower, raise, unbounded, mixed
 		rc(4, 64, 10, []int{4}), rc(4, 8, 10, []int{200}), rc(1, 32, 30, []int{0}), rc(16, 0, 5, []int{2, 100, 0, 1}),
 		// frames larger than the 2 MiB buffered writer, cut inside the frame at several offsets, then >= 10 sends
 		bigc("direct", 1, 3<<20, 0, 1), bigc("direct", 1, 3<<20, 1, 23), bigc("direct", 4, 3<<20, 0, 1<<20),
 		bigc("direct", 1, 5<<20, 1, 2500000), bigc("direct", 1, 3<<20, 2, -1), bigc("queue", 1, 3<<20, 1, 1<<20),
 	}
+}
+
+func stall(senders, perSender int) scenarioSpec {
+	return scenarioSpec{Mode: "queue", Senders: senders, PreMax: 1500, Post: perSender, Stall: true,
+		Seed: uint64(senders*977 + perSender), Name: fmt.Sprintf("fixed queue/%d senders/stalled consumer, all entry points", senders)}
+}
+
+func idle(mode string, senders int) scenarioSpec {
+	return scenarioSpec{Mode: mode, Senders: senders, PreMax: 100, Post: 3, TimeoutMs: 500, IdleMs: 1300,
+		Seed: uint64(senders*31 + len(mode)), Name: fmt.Sprintf("fixed %s/%d senders/idle 1300 ms > timeout 500 ms", mode, senders)}
 }
 
 func rc(senders, cap0, perSender int, caps []int) scenarioSpec {
@@ -179,41 +209,20 @@ func bigc(mode string, senders, size, frames, extra int) scenarioSpec {
 		Seed:   uint64(size + frames*17 + extra), Name: fmt.Sprintf("fixed %s/%d senders/%d MiB frames cut at %d+%d", mode, senders, size>>20, frames, extra)}
 }
 
-type result struct {
-	obs      *observation
-	findings []finding
-	an       *analysis
-}
-
-func runAll(specs []scenarioSpec, par int) []result {
-	res := make([]result, len(specs))
-	sem := make(chan struct{}, par)
-	var wg sync.WaitGroup
-	for i := range specs {
-		wg.Add(1)
-		sem <- struct{}{}
-		go func(i int) {
-			defer wg.Done()
-			defer func() { <-sem }()
-			o := runScenario(specs[i])
-			f, an := checkSpec(o)
-			res[i] = result{o, f, an}
-		}(i)
-	}
-	wg.Wait()
-	return res
-}
-
 func canon(o *observation, an *analysis) string {
 	b, _ := json.Marshal(o.Spec.Script)
-	return fmt.Sprintf("%s|%d|cap%d|big%d/%d|rc%v|%s|conns%d|delivered%d", o.Spec.Mode, o.Spec.Senders, o.Spec.QueueCap, o.Spec.Big, o.Spec.BigAll, o.Spec.Reconfig, b, len(o.Conns), len(an.Delivered))
+	return fmt.Sprintf("%s|%d|cap%d|big%d/%d|rc%v%v|idle%d|%s|conns%d|delivered%d", o.Spec.Mode, o.Spec.Senders, o.Spec.QueueCap, o.Spec.Big, o.Spec.BigAll, o.Spec.Reconfig, o.Spec.Stall, o.Spec.IdleMs, b, len(o.Conns), len(an.Delivered))
 }
 
 func main() {
 	env, rep := vh.Parse("C06")
 	reexecForRaceLog(env)
+	if *flagChild != "" || *flagChildD42 {
+		childMain(env)
+		return
+	}
 	rng := vh.NewRng(env.Seed)
-	rep.Rule = "a case is one scenario: mode (direct|queue) x senders (1|4|16) x fault script (per accepted connection: close after j whole frames + m bytes, FIN or RST; refuse k connects) x pack sizes, run on the real client against a loopback collector stand-in; non-trivial = at least one frame was received and (a fault was carried out or several senders ran); distinct by (mode, senders, queue capacity, script, connections accepted, frames received)"
+	rep.Rule = "a case is one scenario: mode (direct|queue) x senders (1|4|16) x entry points (Send, SendFlush(false), SendFlush(true), per-send options) x fault script (per accepted connection: close after j whole frames + m bytes, FIN or RST; refuse k connects) x pack sizes (up to > the 2 MiB write buffer) x queue reconfiguration / stalled consumer under a backlog x idle longer than the write timeout, run on the real client (in a child process) against a loopback collector stand-in; non-trivial = at least one frame was received and (a fault was carried out or several senders ran); distinct by (mode, senders, queue capacity, sizes, reconfiguration, script, connections accepted, frames received)"
 
 	var specs []scenarioSpec
 	replayD42 := false
@@ -233,135 +242,76 @@ func main() {
 	if raceEnabled {
 		par = 32
 	}
-	results := runAll(specs, par)
-
-	var lines []string
-	var lineOf []int
-	var wits []*witness
-	for i, r := range results {
-		o := r.obs
-		if o.Infra != "" {
-			rep.Count("infra-skip")
-			rep.Note("scenario %q skipped: %s", o.Spec.Name, o.Infra)
+	jobs := make([]job, len(specs))
+	for i, sp := range specs {
+		jobs[i] = job{i, sp}
+	}
+	records, crashes, notes := runIsolated(env, jobs, par)
+	for _, n := range notes {
+		rep.Note("%s", n)
+	}
+	for _, c := range crashes {
+		rep.Count("client-crash-or-hang")
+		rep.Fail("property", c.Key, c.Summary, c.Replay)
+	}
+	for i := range specs {
+		r := records[i]
+		if r == nil {
 			continue
 		}
-		faults := 0
-		for _, c := range o.Conns {
-			if c.Faulted {
-				faults++
-			}
+		if r.Infra != "" {
+			rep.Count("infra-skip")
+			rep.Note("scenario %q skipped: %s", r.Spec.Name, r.Infra)
+			continue
 		}
-		rep.Case(canon(o, r.an), len(r.an.Delivered) > 0 && (faults > 0 || o.Spec.Senders > 1))
-		if os.Getenv("C06_DEBUG") != "" {
-			fmt.Fprintf(os.Stderr, "%-32s cap=%d faults=%d/%d conns=%d sends=%d recv=%d wall=%dms\n", o.Spec.Name, o.Spec.QueueCap, faults, len(o.Spec.Script), len(o.Conns), len(o.Sends), len(r.an.Delivered), o.WallMs)
+		rep.Case(r.Canon, r.Nontrivial)
+		for k, v := range r.Counts {
+			rep.CountN(k, v)
 		}
-		rep.Count("mode:" + o.Spec.Mode)
-		rep.Count(fmt.Sprintf("senders:%d", o.Spec.Senders))
-		rep.Count(fmt.Sprintf("faults-carried-out:%d", faults))
-		if len(o.Spec.Reconfig) > 0 {
-			rep.Count("queue-reconfigured-under-backlog")
+		if i < 3 || (r.Faults > 1 && len(rep.Samples) < 8) {
+			rep.Sample(map[string]interface{}{"spec": r.Spec, "connections": r.Conns, "sends": r.Sends, "received": r.Received, "wall_ms": r.WallMs})
 		}
-		if o.Spec.BigAll > 0 {
-			rep.Count("all-frames-larger-than-write-buffer")
+		for _, f := range r.Findings {
+			rep.Fail("property", f.Key, f.Summary, map[string]interface{}{"spec": r.Spec, "finding": f, "connections": r.Conns})
 		}
-		rep.CountN("sends", len(o.Sends))
-		rep.CountN("frames-received", len(r.an.Delivered))
-		rep.CountN("connections", len(o.Conns))
-		for _, s := range o.Sends {
-			rep.Count("result:" + s.Class)
-			if s.Lic != "" {
-				rep.Count("license:override")
-			} else {
-				rep.Count("license:default")
-			}
-			switch {
-			case s.Len < 100:
-				rep.Count("frame:<100")
-			case s.Len < 1000:
-				rep.Count("frame:<1k")
-			case s.Len < 100000:
-				rep.Count("frame:<100k")
-			case s.Len < 2<<20:
-				rep.Count("frame:<2MiB")
-			default:
-				rep.Count("frame:>=2MiB")
-			}
-		}
-		for _, c := range o.Conns {
-			if c.Faulted {
-				switch t := r.an.TailLen[c.Idx]; {
-				case c.Bytes == 0:
-					rep.Count("cut:before-any-byte")
-				case t == 0:
-					rep.Count("cut:between-frames")
-				case t < frameHdr:
-					rep.Count("cut:inside-header")
-				default:
-					rep.Count("cut:inside-payload")
-				}
-			}
-		}
-		for _, e := range o.Log {
-			if e.Kind == "fail" {
-				rep.Count("connect-refused")
-			}
-		}
-		if i < 3 || (faults > 1 && len(rep.Samples) < 8) {
-			rep.Sample(map[string]interface{}{"spec": o.Spec, "connections": o.Conns, "sends": len(o.Sends), "received": len(r.an.Delivered), "wall_ms": o.WallMs})
-		}
-		for _, f := range r.findings {
-			rep.Fail("property", f.Key, f.Summary, map[string]interface{}{"spec": o.Spec, "finding": f, "connections": o.Conns})
-		}
-		if env.Driver != "" {
-			w := buildWitness(o, r.an)
-			if w.skip != "" {
-				rep.Count("model-replay-skipped")
-				rep.Note("scenario %q not replayed on the model: %s", o.Spec.Name, w.skip)
-			} else {
-				lines = append(lines, w.line)
-				lineOf = append(lineOf, i)
-				wits = append(wits, w)
-			}
-		}
-	}
-	if len(lines) > 0 {
-		outs, err := vh.RunDriver(env.Driver, lines)
-		if err != nil {
-			vh.Die("driver: %v", err)
-		}
-		for k, out := range outs {
-			r := results[lineOf[k]]
-			if msg := compareWitness(r.obs, r.an, wits[k], out); msg != "" {
-				// the Spec checks above already ran on this very observation and are reported
-				// separately; a disagreement here means the model does not admit what the client did
-				kind := "correspondence"
-				rep.Fail(kind, "model-admits:"+r.obs.Spec.Mode, msg, map[string]interface{}{"spec": r.obs.Spec, "line": vh.Clip(lines[k], 4000), "driver": vh.Clip(out, 4000)})
-			} else {
-				rep.Count("model-admits")
-			}
+		switch {
+		case r.WitnessSkip != "":
+			rep.Count("model-replay-skipped")
+			rep.Note("scenario %q not replayed on the model: %s", r.Spec.Name, r.WitnessSkip)
+		case r.Corr != "":
+			// the Spec checks already ran on this very observation and are reported separately; a
+			// disagreement here means the model does not admit what the client did
+			rep.Fail("correspondence", "model-admits:"+r.Spec.Mode, r.Corr, map[string]interface{}{"spec": r.Spec, "line": r.Line, "driver": r.DriverOut})
+		case r.Admitted:
+			rep.Count("model-admits")
 		}
 	}
 
-	// D42 replay (always)
+	// D42 replay (always), in its own process
 	if env.Replay == "" || replayD42 {
-		budget, trials := 25*time.Second, 66
-		if env.Thorough {
-			budget, trials = 90*time.Second, 400
-		}
-		d := runD42(trials, budget, env.Seed)
+		d, died := runD42Isolated(env)
 		rep.Extra["d42"] = d
 		what := fmt.Sprintf("D42 replay: servers [dead, live], process() parked inside Connect by a blocking Logger, one Send of a %d-byte frame; released at %q +%dµs (trial %d of the sweep)", d.FrameLen, d.Variant, d.DelayUs, d.Trials)
-		rep.KnownReplay(keyD42, d.Hit, what)
-		if d.Hit {
-			rep.Fail("property", keyD42, "direct mode: Send returned nil and the frame was received on no connection although both connections stayed healthy — process() replaced the buffered writer between the sender's Write and Flush (no send lock around its Connect)",
-				map[string]interface{}{"d42": d, "how": what})
-		}
-		if d.Other != "" {
-			rep.Note("D42 replay: %s", d.Other)
+		if died != "" {
+			rep.KnownReplay(keyD42, true, what+" — "+vh.Clip(died, 300))
+			rep.Fail("property", keyD42+":crash", "direct mode, process() racing a sender inside Connect: "+vh.Clip(died, 600), map[string]interface{}{"how": what, "output": died})
+		} else {
+			rep.KnownReplay(keyD42, d.Hit, what)
+			if d.Hit {
+				rep.Fail("property", keyD42, "direct mode: Send returned nil and the frame was received on no connection although both connections stayed healthy — process() replaced the buffered writer between the sender's Write and Flush (no send lock around its Connect)",
+					map[string]interface{}{"d42": d, "how": what})
+			}
+			if d.Other != "" {
+				rep.Note("D42 replay: %s", d.Other)
+			}
 		}
 	}
 	collectRaceLog(rep)
 	sortNotes(rep)
+	if env.Out != "" {
+		// the report is written whatever happened to the working directory meanwhile
+		os.MkdirAll(filepath.Dir(env.Out), 0o755)
+	}
 	rep.Write(env.Out)
 }
 
